@@ -761,6 +761,7 @@ int main(int argc, char** argv) {
   if (mode == "script") {
     auto scripts = vj::read_ndjson(argv[2]);
     FILE* out = fopen(argv[3], "w");
+    setvbuf(out, nullptr, _IOLBF, 0);     // a crash must not lose the events logged before it
     vj::install_abort_handlers(out);
     unsigned n = 0;
     for (auto& s : scripts) {
@@ -775,6 +776,7 @@ int main(int argc, char** argv) {
   }
   if (mode == "random") {
     FILE* out = fopen(argv[2], "w");
+    setvbuf(out, nullptr, _IOLBF, 0);
     vj::install_abort_handlers(out);
     unsigned nexec = unsigned(atoi(argv[3]));
     std::string profile = argc > 4 ? argv[4] : "mix";
